@@ -77,7 +77,11 @@ RULE = ('one PRNG; sets: every generator (8) x 2-9 RDMs x 3-10 conditions, group
         'on its own against the stand-alone call on the content the edits so far produce, all earlier results '
         'are re-read after every later step, the object is compared bit for bit with a pristine copy after every '
         'call; a quarter of the single-call sets cases hold their descriptors as ndarrays; a session is '
-        'non-trivial when at least two generator calls split the data or are rejected')
+        'non-trivial when at least two generator calls split the data or are rejected; round 5: about a '
+        'quarter of the extra fit_regress models use a fragile fitter (the library fitter, then LinAlgError on '
+        'about every second training set, as a function of the training object alone); a LinAlgError of a '
+        'fitter is recorded per call (same training view => same outcome) and does not end the run; every '
+        'perturbation is asserted to leave the view it must keep bit-identical')
 BRANCHES = ['gen:k_fold', 'gen:k_fold_rdm', 'gen:k_fold_pattern', 'gen:of_k_rdm', 'gen:of_k_pattern',
             'gen:random', 'gen:loo_rdm', 'gen:loo_pattern', 'random:true', 'random:false',
             'grouped:rdm', 'grouped:pattern', 'copies:rdm', 'copies:pattern', 'labels:str',
@@ -103,12 +107,19 @@ BRANCHES = ['gen:k_fold', 'gen:k_fold_rdm', 'gen:k_fold_pattern', 'gen:of_k_rdm'
             'session:crossval', 'session:crossval_twice_same_sets', 'session:gen_after_crossval',
             'session:shuffled'] + ['session:gen_' + g_ for g_ in
                                    ('k_fold', 'k_fold_rdm', 'k_fold_pattern', 'of_k_rdm', 'of_k_pattern',
-                                    'random', 'loo_rdm', 'loo_pattern')] + ['desc:ndarray', 'desc:list']
+                                    'random', 'loo_rdm', 'loo_pattern')] + ['desc:ndarray', 'desc:list'] + [
+            # round 5: a fitter that fails (LinAlgError) on some training sets - judged call by call
+            'cv:fitter_raised', 'cv:fit_failure_other_fold', 'cv:fitter_failure_propagated']
 ASSUMPTIONS = [
     'descriptor values are mapped to natural-number codes (non-negative ints as themselves, strings '
     'by rank) before they reach the model; np.unique orders ints numerically and strings by code point',
     'the non-interference experiment compares θ and scores bit-for-bit; numpy / LAPACK are '
-    'deterministic for identical inputs in one process']
+    'deterministic for identical inputs in one process',
+    'a numpy.linalg.LinAlgError raised inside a fitter is an outcome of that one fit (whether a fitter solves a '
+    'degenerate problem is C08\'s claim): it is recorded per call, the cross-validation continues with '
+    'parameters that depend on the model spec only, and the non-interference experiment demands the same '
+    'outcome for the same training view; any other exception, and any exception of the cross-validation '
+    'itself, is reported as before']
 TRUSTED_EXTRA = [
     'np.random.shuffle permutes its argument in place (the outcome is recorded, its distribution is not examined)',
     'np.unique returns the sorted distinct values; np.setdiff1d the sorted difference']
@@ -365,8 +376,37 @@ def _make_model(case, ms=None):
             return M.ModelWeighted('m', robj), FT.Fitter(M.fit_regress, ridge_weight=ms['ridge'])
         fit = {'regress': M.fit_regress, 'regress_nn': M.fit_regress_nn, 'optimize': M.fit_optimize,
                'optimize_positive': FT.fit_optimize_positive}[name]
+        if ms.get('fragile'):
+            fit = _fragile(fit)
         return M.ModelWeighted('m', robj), fit
     raise ValueError(kind)
+
+
+def _fragile(fit):
+    """a fitter that refuses about every second training set: the library's fitter, then LinAlgError when
+    64 x (sum of the training dissimilarities it was handed) is even - a pure function of the training
+    object, standing for any fitter whose success depends on the training data (round 5: fit_regress_nn
+    raised on linearly dependent basis RDMs in a fold whose training data a perturbation had changed).
+    The same training view must give the same outcome; another fold's outcome may flip freely."""
+    def f_(mdl, data, **kw):
+        theta = fit(mdl, data, **kw)
+        tot = float(np.nansum(np.asarray(data.dissimilarities, dtype=float)))     # multiples of 1/64: exact
+        if int(round(tot * 64)) % 2 == 0:
+            raise np.linalg.LinAlgError('fragile fitter: this training set is refused')
+        return theta
+    return f_
+
+
+def _fallback_theta(ms):
+    """substitute parameters for a call in which the library's fitter raised LinAlgError: a function of
+    the model spec alone (never of the data)"""
+    if ms['type'] == 'select':
+        return 0
+    if ms['type'] == 'fixed':
+        return None
+    th = np.zeros(ms['n_rdm'])
+    th[0] = 1.0
+    return th
 
 
 class _Timeout(Exception):
@@ -393,7 +433,7 @@ def _obj_content(obj):
     return {'rows': [rows[q] for q in order], 'conds': conds, 'vecs': [vecs[q] for q in order]}
 
 
-def _cv_once(case, matrix, fixed_thetas=None):
+def _cv_once(case, matrix, fixed_thetas=None, propagate=True):
     """one run of the real cross-validation on the object with the given dissimilarities.
     -> dict(sets=[(train rows, train conds, test rows, test conds)], fit=[…], cmp=[…],
             thetas=[…], evals=[…]) or dict(exc=…)"""
@@ -411,19 +451,33 @@ def _cv_once(case, matrix, fixed_thetas=None):
     rmap = _codes(rvals)
     rec = {'fit': [], 'cmp': [], 'thetas': [], 'raw_thetas': [], 'sets': [], 'calls': [],
            'evals': [[] for _ in models], 'hook_scores': [], 'test_objs': [], 'fit_model': [],
-           'nc_pairs': [], 'guard': [], 'slots': []}
+           'nc_pairs': [], 'guard': [], 'slots': [], 'fit_exc': [],
+           'raised_to_library': 0, 'refit_other_data': False}
     calls = [0]
+
+    def in_turn(k, j, data):
+        """is call number k (model slot j, training object `data`) the call the cross-validation owes next:
+        model k mod nM on the training set of the k div nM-th evaluable fold handed out so far"""
+        live_ = [s_ for s_ in rec['sets'] if not s_['skipped']]
+        if j != k % len(models) or k // len(models) >= len(live_):
+            return False
+        s_ = live_[k // len(models)]
+        return sorted(int(v) for v in data.rdm_descriptors['orig']) == sorted(s_['train_rows']) \
+            and sorted(int(v) for v in data.pattern_descriptors['orig']) == sorted(s_['train_conds'])
 
     def fitter(mdl, data, method='cosine', pattern_idx=None, pattern_descriptor=None, **kw):
         j = next(q for q, m_ in enumerate(models) if m_ is mdl)
         ms, base_fit = specs[j], built[j][1]
         stochastic = ms.get('fitter') in ('optimize', 'optimize_positive')
+        if rec['raised_to_library'] and not in_turn(len(rec['fit']), j, data):
+            rec['refit_other_data'] = True      # the library reacted to a fitter's failure by fitting elsewhere
         rec['fit_model'].append(j)
         c = _obj_content(data)
         c['pidx'] = sorted(int(v) for v in pattern_idx) if case['gen'] in RDM_ONLY \
             else sorted(_code_of(pmap, v) for v in pattern_idx)
         c['pdesc'] = pattern_descriptor
         rec['fit'].append(c)
+        fit_exc = None
         if fixed_thetas is not None:
             theta = copy.deepcopy(fixed_thetas[calls[0]])
         else:
@@ -436,9 +490,27 @@ def _cv_once(case, matrix, fixed_thetas=None):
             try:
                 theta = base_fit(mdl, data, method=method, pattern_idx=pattern_idx,
                                  pattern_descriptor=pattern_descriptor, **extra, **kw)
+            except np.linalg.LinAlgError:
+                # the library's fitter cannot solve the fitting problem of THIS call (e.g. linearly
+                # dependent basis RDMs on a training set with repeated conditions): whether a fitter
+                # solves a degenerate problem is C08's claim, not C05's.  The outcome is recorded per
+                # call - C05 demands that the same training view gives the same outcome, exception
+                # included - and the cross-validation goes on with a substitute theta that depends on
+                # the model spec only, so that one fold's numerical failure neither hides the data flow
+                # of the other folds nor is mistaken for a dependence on held-out data.
+                theta, fit_exc = _fallback_theta(ms), 'LinAlgError'
+                if propagate and ms.get('fragile') == 'propagate':
+                    # base run of a 'propagate' case: the failure is handed to the library as it is, to see
+                    # what the cross-validation does with it (the pinned code lets it through; a library that
+                    # answers it with a fit on other data is caught by `in_turn`)
+                    rec['raised_to_library'] += 1
+                    rec['fit_exc'].append(fit_exc)
+                    calls[0] += 1
+                    raise
             finally:
                 signal.setitimer(signal.ITIMER_REAL, 0)
                 signal.signal(signal.SIGALRM, old)
+        rec['fit_exc'].append(fit_exc)
         calls[0] += 1
         rec['thetas'].append(np.array(theta, dtype=float).copy())
         rec['raw_thetas'].append(copy.deepcopy(theta))
@@ -605,7 +677,8 @@ def _cv_once(case, matrix, fixed_thetas=None):
             except _Timeout:
                 return {'exc': 'Timeout', 'log': tap.log}
             except Exception as exc:  # noqa: BLE001
-                return {'exc': _exc_name(exc), 'log': tap.log}
+                return {'exc': _exc_name(exc), 'log': tap.log, 'raised_to_library': rec['raised_to_library'],
+                        'refit_other_data': rec['refit_other_data']}
         rec['evals'] = evals
         rec['log'] = tap.log
         # per pass of cv_noise_ceiling: pool(ceil), pool(all), compare(·, test), compare(·, test)
@@ -658,6 +731,32 @@ def _perturb(case, matrix, keep, seed):
     return out, changed
 
 
+def _assert_view_kept(case, base, pert, rows, conds, what):
+    """harness self-check, independent of `_perturb`'s own predicate and of the library: the perturbed
+    object holds, bit for bit, the same dissimilarities as the base object at every (r, i, j) with r among
+    `rows` and i, j among `conds` (the view of the fold that must stay as it is: original positions, the
+    space `base` is indexed in - `orig` descriptors survive grouping and bootstrap resampling), and the same
+    missing-value pattern everywhere.  A failure is a defect of the harness (raised -> INFRA), never
+    evidence about the library."""
+    nC = case['pat']['n']
+    d0 = np.asarray(_build(case, base).dissimilarities, dtype=float)
+    d1 = np.asarray(_build(case, pert).dissimilarities, dtype=float)
+    if d0.shape != d1.shape or not np.array_equal(np.isnan(d0), np.isnan(d1)):
+        raise RuntimeError(f'perturbation ({what}) changed the shape or the missing-value pattern')
+    if any(not (0 <= r < d0.shape[0]) for r in rows) or any(not (0 <= c < nC) for c in conds):
+        raise RuntimeError(f'perturbation ({what}): fold identifiers are not positions of the input object')
+    inside = np.zeros(d0.shape, dtype=bool)
+    cols = [q for q, (i, j) in enumerate(_pairs(nC)) if i in conds and j in conds]
+    for r in rows:
+        inside[r, cols] = True
+    if d0[inside].tobytes() != d1[inside].tobytes():
+        raise RuntimeError(f'perturbation ({what}) touched the view it must keep: rows {sorted(rows)}, '
+                           f'conditions {sorted(conds)}')
+    # and nothing outside the view was left as it was by accident of the predicate (a changed entry is
+    # always outside): the number of changed entries is what _perturb reports
+    return int(np.sum((d0 != d1) & ~np.isnan(d0)))
+
+
 def _same_float_lists(a, b):
     if len(a) != len(b):
         return False
@@ -671,6 +770,12 @@ def _same_float_lists(a, b):
 def _crossval_experiment(case):
     base = _base_matrix(case)
     r0 = _cv_once(case, base)
+    if r0.get('raised_to_library'):
+        # a fragile fitter in 'propagate' mode failed and handed its LinAlgError to the library: C05 is silent
+        # on what becomes of that cross-validation (the pinned code lets the exception through), except that
+        # the failure must not be answered by a fit on data other than the training set of the fold in turn
+        return {'skip': 'fitter failure handed to the library', 'outcome': r0.get('exc'),
+                'refit_other_data': bool(r0['refit_other_data'])}, []
     if 'exc' in r0:
         return {'exc': r0['exc']}, r0.get('log', [])
     if case.get('bootcv'):
@@ -693,7 +798,10 @@ def _crossval_experiment(case):
            if case.get('bootcv') else True,
            'k_used': sorted(set((c['k_rdm'], c['k_pattern']) for c in r0['calls'])),
            'theta_stable': [], 'score_stable': [], 'fit_args_stable': [],
-           'perturbed_test_only': [], 'perturbed_train_only': [], 'sensitive': False}
+           'perturbed_test_only': [], 'perturbed_train_only': [], 'sensitive': False,
+           # informational (not part of the model's answer): numerical failures of the library's fitter per
+           # call of the base run, and what ended a perturbed re-run early, if anything
+           'fit_exc': list(r0['fit_exc']), 'perturbed_exc': [], 'fit_outcome_flipped_elsewhere': False}
     if not out['calls_match']:
         return out, r0['log']
     def same(a, b):
@@ -715,17 +823,30 @@ def _crossval_experiment(case):
         # (a) overwrite every entry that involves a test-only condition or a test-only RDM
         m1, n1 = _perturb(case, base, lambda r, i, j: r in trr and i in trc and j in trc,
                           case['pseed'] + 2 * q)
-        r1 = _cv_once(case, m1)
+        if _assert_view_kept(case, base, m1, trr, trc, f'test-only, fold {q}') != n1:
+            raise RuntimeError('perturbation (test-only): changed-entry count inconsistent')
+        r1 = _cv_once(case, m1, propagate=False)
+        # the calls of THIS fold: same data handed over, same outcome of the fit - theta bit for bit, or
+        # the same numerical failure of the library's fitter (recorded per call; a failure in another
+        # fold, whose training data the perturbation legitimately changed, does not end the run)
         ok_theta = 'exc' not in r1 and len(r1['thetas']) == len(r0['thetas']) \
-            and all(same(r1['thetas'][c], r0['thetas'][c]) for c in cs)
+            and len(r1['fit_exc']) == len(r0['fit_exc']) == len(r0['thetas']) \
+            and all(same(r1['thetas'][c], r0['thetas'][c]) and r1['fit_exc'][c] == r0['fit_exc'][c]
+                    for c in cs)
         ok_args = 'exc' not in r1 and len(r1['fit']) == len(r0['fit']) \
             and all(r1['fit'][c] == r0['fit'][c] for c in cs)
         out['theta_stable'].append(bool(ok_theta))
         out['fit_args_stable'].append(bool(ok_args))
         out['perturbed_test_only'].append(n1)
+        out['perturbed_exc'].append(r1.get('exc'))
+        if 'exc' not in r1 and len(r1['fit_exc']) == len(r0['fit_exc']) \
+                and any(r1['fit_exc'][c] != r0['fit_exc'][c] for c in range(len(r0['fit_exc'])) if c not in cs):
+            out['fit_outcome_flipped_elsewhere'] = True
         # (b) overwrite training-only data, θ held fixed
         m2, n2 = _perturb(case, base, lambda r, i, j: r in ter and i in tec and j in tec,
                           case['pseed'] + 2 * q + 1)
+        if _assert_view_kept(case, base, m2, ter, tec, f'train-only, fold {q}') != n2:
+            raise RuntimeError('perturbation (train-only): changed-entry count inconsistent')
         r2 = _cv_once(case, m2, fixed_thetas=r0['raw_thetas'])
         ok_score = 'exc' not in r2 and len(r2['evals']) == nM == len(r0['evals']) \
             and all(len(r2['evals'][j]) == len(r0['evals'][j]) > q
@@ -1236,7 +1357,7 @@ def compare(case, impl, model):
     if isinstance(model, dict) and 'model_error' in model:
         return f"model error: {model['model_error']}"
     if isinstance(impl, dict) and 'skip' in impl:
-        return None
+        return 'refit_other_data: True != False' if impl.get('refit_other_data') else None
     if case['kind'] == 'crossval' and isinstance(impl, dict) and 'exc' not in impl:
         impl = {k: v for k, v in impl.items() if k in model}
     return first_diff(impl, model, rtol=0, atol=0)
@@ -1340,6 +1461,12 @@ def features(case, impl):
             br.append('fit:regress_nn_boot')
         if ok and case.get('bare_model'):
             br.append('cv:bare_model')
+        if isinstance(impl, dict) and impl.get('skip') and not impl.get('refit_other_data'):
+            br.append('cv:fitter_failure_propagated')
+        if ok and any(impl.get('fit_exc', [])):
+            br.append('cv:fitter_raised')            # a fit of the base run failed numerically (per call)
+        if ok and impl.get('fit_outcome_flipped_elsewhere'):
+            br.append('cv:fit_failure_other_fold')   # ... and a perturbed run flipped another fold's outcome
         if ok and impl.get('n_models', 1) >= 2 and len(impl.get('live', [])) >= 2:
             br.append('cv:multi_model_multi_fold')
             if impl.get('n_models') >= 3:
@@ -1506,6 +1633,10 @@ def _extra_models(rng, case):
             ms['fitter'] = rng.choice(['regress', 'regress', 'regress_nn'])
             if ms['fitter'] == 'regress':
                 ms['ridge'] = rng.choice([0.5, 1.0, 2.0])
+                if ms['seed'] % 4 == 1:         # round 5; no extra draw: the case streams of a seed stay
+                    # as they were apart from this flag; every third fragile fitter hands its failure to
+                    # the library in the base run instead of being caught by the recording fitter
+                    ms['fragile'] = 'propagate' if (ms['seed'] // 4) % 3 == 0 else True
         extra.append(ms)
     pos = rng.randint(0, len(extra))          # the primary model is not always the first
     case['extra_models'] = extra
@@ -2060,7 +2191,12 @@ def _oracle_crossval(case):
     res, _ = _crossval_experiment(case)
     feat = {'gen': case['gen'], 'model': case['model']['type'], 'default_pattern_descriptor': False}
     if 'skip' in res:
-        return None      # fitter did not terminate (C08): the property is silent
+        if res.get('refit_other_data'):
+            return _viol('after a fitter raised LinAlgError for a fold, the cross-validation fitted on data that '
+                         'are not the training set of the fold in turn (held-out data reach a fit)',
+                         'a fit on other rdms / conditions', 'the exception, or the next fold\'s own training set',
+                         part='fit_after_failure', **feat)
+        return None      # a fitter's own failure handed to the library (C08): the property is silent
     if 'exc' in res:
         valid = case.get('bootcv') is not None or _valid_call(case)
         if valid:
@@ -2088,9 +2224,20 @@ def _oracle_crossval(case):
                          'returned evaluations differ from the per-fold scores', 'equal',
                          fold=q, part='stored', n_models=res['n_models'], **feat)
         if not res['theta_stable'][pos] or not res['fit_args_stable'][pos]:
+            pexc = (res.get('perturbed_exc') or [None] * (pos + 1))[pos]
+            if pexc is not None:
+                # the re-run did not finish: say so instead of claiming that θ moved (the training view of
+                # the fold is asserted bit-identical, fitter failures are caught per call - what is left is
+                # the cross-validation itself raising on other values with the same missing-value pattern)
+                return _viol(f'fold {q}: the cross-validated evaluation raises when only dissimilarities '
+                             f'involving test-only conditions / rdms of this fold are overwritten (same '
+                             f'missing-value pattern), and does not raise on the original data',
+                             pexc, 'the same folds, fits and evaluations', fold=q, part='fit',
+                             exc=pexc, **feat)
             return _viol(f'fold {q}: fitted parameters (or the data handed to the fitter) change when only '
                          f'dissimilarities involving test-only conditions / rdms are overwritten',
-                         'θ changed', 'θ unchanged', fold=q, part='fit', **feat)
+                         'θ changed' if not res['theta_stable'][pos] else 'data handed to the fitter changed',
+                         'θ unchanged', fold=q, part='fit', **feat)
         if not res['score_stable'][pos]:
             return _viol(f'fold {q}: the score changes when only training-only dissimilarities are '
                          f'overwritten and θ is held fixed', 'score changed', 'score unchanged',
